@@ -6,6 +6,11 @@
   For every evaluator / direction oracle, any carrier:
   * a request visible at a loop-head check ends the solve there (`stop_at_head_exits`) — never `Busy`;
   * the line-search loop does no evaluation once the flag is visible (`linesearch_does_nothing_when_stopped`);
+  * neither does the initial step-size loop `while (!stop_requested() && L < L_max && qub_violated)`
+    (`init_loop_does_nothing_when_stopped`); with a flag that is never lowered and visible from tick
+    `t₀` on it is left at tick `≤ max t (t₀ + fwdTicks − 1)` whatever the number of backtracks still
+    needed (`init_loop_ticks_after_stop`), and the solve then returns from its first loop head
+    (`init_interrupted_then_returns`);
   * a line search that ends with the flag visible is *discarded*: the current iterate, `k` and the callback
     list are unchanged (`interrupted_linesearch_discarded`), and the very next loop head returns
     (`interrupted_then_returns`) — so at most the evaluations of the pass in progress happen after `stop()`;
@@ -101,6 +106,39 @@ theorem interrupted_then_returns (O : Oracles α) (dir : Dir D α) (P : Prob α)
   have h := stop_at_head_exits O dir P pr stop oot u0 y mu errz0 fuel (iterBody O dir P pr stop s eps).1
     eps' (by rw [hcur]; exact he) hst
   exact ⟨_, h.2, h.1, by rw [(headStep_curr P pr stop oot _).1, hcur]⟩
+
+/-! ### The initial step-size loop -/
+
+/-- **The initial step-size loop does nothing once the flag is visible.** -/
+theorem init_loop_does_nothing_when_stopped (O : Oracles α) (P : Prob α) (pr : Params α)
+    (stop : Nat → Bool) (f : Nat) (c : Iterate α) (t b : Nat) (h : stop t = true) :
+    initQub O P pr stop (f + 1) c t b = (c, t, b, false) :=
+  initQub_stop_noop O P pr stop f c t b h
+
+/-- With a flag that is never lowered and visible from tick `t₀` on, the initial step-size loop
+    entered at tick `t` is left at tick `≤ max t (t₀ + fwdTicks − 1)` (`fwdTicks` = the problem calls
+    of one `eval_forward_hat`): only the backtrack in flight is completed. -/
+theorem init_loop_ticks_after_stop (O : Oracles α) (P : Prob α) (pr : Params α) (stop : Nat → Bool)
+    (hm : ∀ a b, a ≤ b → stop a = true → stop b = true) (t0 : Nat) (h0 : stop t0 = true)
+    (f : Nat) (c : Iterate α) (t b : Nat) :
+    (initQub O P pr stop f c t b).2.1 ≤ max t (t0 + P.fwdTicks - 1) :=
+  initQub_tick_bound O P pr stop hm t0 h0 f c t b
+
+/-- **A solve whose initial step-size loop was cut short returns from its first loop head**: the
+    flag visible when the initialisation ends is visible at the first head check (PANOC-OCP's head
+    makes no call before the check), which returns the exit block with a non-`Busy` status, the
+    initial iterate current, `k = 0`. -/
+theorem init_interrupted_then_returns (O : Oracles α) (dir : Dir D α) (P : Prob α) (d0 : D)
+    (pr : Params α) (stop : Nat → Bool) (oot : Bool) (u0 y mu errz0 gV gQ : Vec α) (gS e0 : α)
+    (s : St α D) (eps : α) (hi : initState O P d0 pr stop u0 gV gQ gS e0 = .inr s)
+    (hs : stop s.tick = true) (he : epsOf P pr s.curr = some eps) :
+    run O dir P d0 pr stop oot u0 y mu errz0 gV gQ gS e0 =
+      exitBlock P pr (headStep P pr stop oot s).1 eps
+        (statusOf pr s.k eps s.noProgress oot true) u0 y mu errz0 ∧
+    statusOf pr s.k eps s.noProgress oot true ≠ .Busy ∧ s.k = 0 := by
+  have h := stop_at_head_exits O dir P pr stop oot u0 y mu errz0 (pr.maxIter + 1) s eps he hs
+  refine ⟨?_, h.2, (initState_good O P d0 pr stop u0 gV gQ gS e0 s hi).2⟩
+  unfold run; rw [hi]; exact h.1
 
 /-! ### Non-vacuity -/
 section examples
